@@ -186,7 +186,9 @@ func (c *Conn) Write(p []byte) (int, error) {
 		}
 		c.wr.dead = true
 		c.wr.eofSent = true
-		c.s.Net.PartialWrites++
+		if k > 0 {
+			c.s.Net.PartialWrites++
+		}
 		c.schedule(c.wr)
 		return k, epipe()
 	}
